@@ -1,8 +1,9 @@
 import ProcSim.Lemmas.SimCore
+import ProcSim.Lemmas.LoaderGraph
 /-!
 # Issue phase (`_fill_inputs`): lemmas for C06
 
-1. `StrictTotal` — the order hypotheses on `<` of the name type; `sortedInputs` is sorted by name.
+1. `sortedInputs` is sorted by name (under `Loader.StrictTotal`, the order hypotheses on `<` of the name type).
 2. The threaded memory flag is *exact*: after the moves, and after every single issue, the flag is set iff some
    instruction has entered (w.r.t. the previous record) a unit whose ACL names its capability (`MemIff`). The
    direction "flag set ⇒ the entry is still there" needs the sink-first order (`orderOK`): an instruction moved into
@@ -19,61 +20,10 @@ open Spec
 
 attribute [local implicit_reducible] AMap
 
-/-! ## 1. Order on names -/
+/-! ## 1. Order on names
 
-/-- `<` on the name type is a strict total order (true for `String` and `Nat`). -/
-structure StrictTotal (N : Type) [LT N] : Prop where
-  irrefl : ∀ a : N, ¬ a < a
-  trans : ∀ a b c : N, a < b → b < c → a < c
-  tri : ∀ a b : N, a < b ∨ a = b ∨ b < a
-
-theorem StrictTotal.nat : StrictTotal Nat :=
-  ⟨Nat.lt_irrefl, fun _ _ _ => Nat.lt_trans, Nat.lt_trichotomy⟩
-
-theorem StrictTotal.string : StrictTotal String := by
-  refine ⟨String.lt_irrefl, fun _ _ _ => String.lt_trans, ?_⟩
-  intro a b
-  by_cases h1 : a < b
-  · exact Or.inl h1
-  · by_cases h2 : b < a
-    · exact Or.inr (Or.inr h2)
-    · exact Or.inr (Or.inl (String.le_antisymm (String.not_lt.1 h2) (String.not_lt.1 h1)))
-
-section sorted
-variable {α : Type}
-
-theorem issue_insertBy_pairwise {le : α → α → Bool} (htot : ∀ x y, le x y = true ∨ le y x = true)
-    (htr : ∀ x y z, le x y = true → le y z = true → le x z = true) (x : α) {l : List α}
-    (h : l.Pairwise (fun a b => le a b = true)) : (insertBy le x l).Pairwise (fun a b => le a b = true) := by
-  induction l with
-  | nil => simp [insertBy]
-  | cons y ys ih =>
-    unfold insertBy
-    have hy := List.pairwise_cons.1 h
-    by_cases hxy : le x y = true
-    · rw [if_pos hxy]
-      refine List.pairwise_cons.2 ⟨?_, h⟩
-      intro z hz
-      rcases List.mem_cons.1 hz with rfl | hz
-      · exact hxy
-      · exact htr _ _ _ hxy (hy.1 z hz)
-    · rw [if_neg hxy]
-      have hyx : le y x = true := (htot x y).resolve_left hxy
-      refine List.pairwise_cons.2 ⟨?_, ih hy.2⟩
-      intro z hz
-      rcases List.mem_cons.1 ((insertBy_perm le x ys).mem_iff.1 hz) with rfl | hz
-      · exact hyx
-      · exact hy.1 z hz
-
-/-- `isort` sorts, for a total and transitive Boolean `≤` -/
-theorem issue_isort_pairwise {le : α → α → Bool} (htot : ∀ x y, le x y = true ∨ le y x = true)
-    (htr : ∀ x y z, le x y = true → le y z = true → le x z = true) (l : List α) :
-    (isort le l).Pairwise (fun a b => le a b = true) := by
-  induction l with
-  | nil => exact List.Pairwise.nil
-  | cons x xs ih => exact issue_insertBy_pairwise htot htr x ih
-
-end sorted
+The order hypothesis on the name type is `Loader.StrictTotal` of `Lemmas/LoaderGraph.lean` (irreflexive, transitive,
+trichotomous `<`; instances `Loader.StrictTotal.string`, `Loader.StrictTotal.nat`). -/
 
 variable {N : Type} [DecidableEq N]
 
@@ -82,9 +32,9 @@ variable [LT N] [DecidableRel (α := N) (· < ·)]
 
 omit [DecidableEq N] in
 /-- the input ports are tried in the order of their names -/
-theorem sortedInputs_pairwise (ho : StrictTotal N) (p : Proc N) :
+theorem sortedInputs_pairwise (ho : Loader.StrictTotal N) (p : Proc N) :
     (sortedInputs p).Pairwise (fun a b => ¬ b.name < a.name) := by
-  have := issue_isort_pairwise (le := fun (a b : UnitM N) => decide ¬ (b.name < a.name))
+  have := Loader.isort_sorted (le := fun (a b : UnitM N) => decide ¬ (b.name < a.name))
     (by
       intro x y
       simp only [decide_eq_true_eq]
@@ -104,7 +54,7 @@ theorem sortedInputs_pairwise (ho : StrictTotal N) (p : Proc N) :
 
 omit [DecidableEq N] in
 /-- a port whose name is smaller than that of `port` is tried before `port` -/
-theorem mem_pre_of_name_lt (ho : StrictTotal N) {p : Proc N} {pre post : List (UnitM N)} {port u : UnitM N}
+theorem mem_pre_of_name_lt (ho : Loader.StrictTotal N) {p : Proc N} {pre post : List (UnitM N)} {port u : UnitM N}
     (hs : sortedInputs p = pre ++ port :: post) (hu : u ∈ p.inBoundary) (hlt : u.name < port.name) : u ∈ pre := by
   have hsorted := sortedInputs_pairwise ho p
   rw [hs] at hsorted
